@@ -630,13 +630,16 @@ def _bits_and_impl(rec_tests, own, thr, types):
         att = ATT_OF.get((b, c))
         if att is not None and att not in real:
             real[att] = ok
-    bits = ""
+    inv = {v: k for k, v in ATT_OF.items()}
+    ents = []
     for att in ORDER:
         if att in real:
-            bits += "1" if real[att] else "0"
+            bit = real[att]
         else:
             e = None if own is None else own.get(att)
-            bits += "1" if (e is not None and e <= thr) else "0"
+            bit = e is not None and e <= thr
+        ents.append(f"{inv[att][0]}/{inv[att][1]}:{int(bit)}")
+    bits = ",".join(ents)
     tests = ",".join(f"{b}/{c}:{int(ok)}" for b, c, ok in rec_tests)
     return bits, tests
 
